@@ -186,6 +186,8 @@ namespace options
 
     void toggle::prepare()
     {
+        given_ = 0;
+        dirty_ = false;
     }
 
     void toggle::check()
